@@ -196,6 +196,8 @@ def slice_with_newaxes(out_name, in_name, blockdims, index):
     )
 
     if where_none:
+        from dask.array._shuffle import concatenate_arrays
+
         expand = expander(where_none)
         expand_orig = expander(where_none_orig)
 
@@ -204,6 +206,14 @@ def slice_with_newaxes(out_name, in_name, blockdims, index):
         for k, v in dsk.items():
             if k[0] == out_name:
                 k2 = (out_name,) + expand(k[1:], 0)
+                if v.func is concatenate_arrays:
+                    # positional indexing merging several input chunks:
+                    # insert the new axes into the merged block
+                    k_inner = ("merge-" + out_name,) + k[1:]
+                    dsk2[k_inner] = Task(k_inner, v.func, *v.args)
+                    arg = expand((slice(None),) * (len(k) - 1), None)
+                    dsk2[k2] = Task(k2, getitem, TaskRef(k_inner), arg)
+                    continue
                 if isinstance(v.args[1], TaskRef):
                     # positional indexing with newaxis
                     indexer = expand_orig(dsk[v.args[1].key].value[1], None)
